@@ -38,7 +38,7 @@ CHECK_DEADLOCK FALSE
 OUTSIDE_PROPERTY: set = set()
 
 TIERS = {
-    "quick": dict(maxpath=4, nrandom=2, variants=1, full_size=700, sample=6, lens=[2, 3], strlens=[2, 8]),
+    "quick": dict(maxpath=4, nrandom=2, variants=1, full_size=300, sample=4, lens=[2, 3], strlens=[2, 8]),
     "thorough": dict(maxpath=5, nrandom=8, variants=2, full_size=10 ** 9, sample=0, lens=[2, 3, 5], strlens=[2, 8, 32]),
 }
 
@@ -147,17 +147,26 @@ def _segment(prefix: tuple) -> tuple:
 
 
 def _segname(seg: tuple) -> str:
-    """action names of a segment with dict->json->dict / json->dict->json detours removed (canonical, for signatures)"""
+    """canonical name of a segment for signatures: dict<->json detours are removed as long as the set of
+    representations visited stays the same (ToDict.DictToJson.JsonToDict.FromDict keeps its trip through JSON)"""
     names = [a for a, _ in seg]
+
+    def reps(ns):
+        return {codecdrv.TARGET[a] for a in ns[:-1]}
+
     changed = True
     while changed:
         changed = False
         for i in range(len(names) - 1):
             if {names[i], names[i + 1]} == {"DictToJson", "JsonToDict"}:
-                del names[i:i + 2]
-                changed = True
-                break
+                cand = names[:i] + names[i + 2:]
+                if reps(cand) == reps(names):
+                    names, changed = cand, True
+                    break
     return ".".join(names)
+
+
+SIG_CLASS = {"NEGNAN": "NaNbits", "NANPAYLOAD": "NaNbits", "STALE_NUL": "STALE"}
 
 
 def _family(kind: str) -> str:
@@ -297,7 +306,7 @@ def run(tier: str, seed: int) -> Dict[str, Any]:
         notes.append(f"{len(uncon)} value(s) could not be constructed through the validated API (see C09), e.g. "
                      f"{_CLASSES[uncon[0][0]][1].__name__} {uncon[0][1]}:{uncon[0][2]} {uncon[0][6]}")
     viol, seen, outside = [], {}, {}
-    default_cache: Dict[Tuple[int, tuple], bool] = {}
+    default_cache: Dict[Tuple[int, tuple], str] = {}
     for r in records:
         v = verdicts[r["tid"]]
         if v["res"] == "ok":
@@ -317,9 +326,12 @@ def run(tier: str, seed: int) -> Dict[str, Any]:
                 key = (ci, seg)
                 if key not in default_cache:
                     with engine.Quiet():
-                        st = codecdrv.run_default(cls, f[3], codecdrv.Trie([seg]).full())
-                    default_cache[key] = any(s not in ("ok", "skipped") for s, _ in st.values())
-                vclass = "any" if default_cache[key] else f"{_family(r['k'])}:{r['v']}"
+                        t1 = codecdrv.Trie([seg])
+                        st = codecdrv.run_default(cls, f[3], t1.full())
+                    default_cache[key] = st.get(t1.ids[seg], ("skipped", ""))[0]
+                dflt = default_cache[key]      # the same segment on a default-constructed object of the class
+                indep = dflt == "ok" if clause == "C10.VersionNotRefused" else dflt not in ("ok", "skipped")
+                vclass = "any" if indep else f"{_family(r['k'])}:{SIG_CLASS.get(r['v'], r['v'])}"
                 cname = clause.split(".")[-1]
                 detail = f":exc={f[6]}" if f[5] == "raised" else ""
                 sig = f"C10/{cname}({segname})/{vclass}{detail}" if cname == "RoundTripDiffers" else f"C10/{cname}/{vclass}{detail}"
